@@ -133,6 +133,9 @@ static const char *env_tool[4];
 
 /* one run; CLASS names the discrete coordinates.  expect: 0 nothing, 1 = must fail (nonzero status, no stdout),
  * 2 = must pass the stdin line through unchanged */
+/* when set: the run may print at most this many bytes (output bounded by the input) */
+static size_t tool_out_bound;
+
 static void
 tool_run(const char *kind, const char *class, const char *fine, double ord, const char *cas, int argc, const char *const *argv, const char *in, int expect)
 {
@@ -153,7 +156,7 @@ tool_run(const char *kind, const char *class, const char *fine, double ord, cons
 	o.now = 1330862400;	/* 2012-03-04T12:00:00Z */
 	o.env = env_tool;
 	o.timeout_s = 2;
-	o.out_cap = 1U << 20;
+	o.out_cap = tool_out_bound ? tool_out_bound : 1U << 20;
 	xr.total = 0;
 	xr.n = 0;
 	xr_emit_fd = 2;
@@ -202,7 +205,7 @@ tool_run(const char *kind, const char *class, const char *fine, double ord, cons
 	if (rep && r.signaled && !r.timed_out && !r.capped) {
 		;	/* the signal is the report */
 	} else if (r.timed_out || r.capped || r.signaled) {
-		snprintf(key, sizeof(key), TOOLNAME " %s %s%s%s: %s", kind, class, *fine ? ", " : "", fine, r.timed_out ? "does not end within 2 s" : r.capped ? "output cap (1 MiB) hit" :
+		snprintf(key, sizeof(key), TOOLNAME " %s %s%s%s: %s", kind, class, *fine ? ", " : "", fine, r.timed_out ? "does not end within 2 s" : r.capped ? (tool_out_bound ? "prints more than 64 x the input" : "output cap (1 MiB) hit") :
 			 r.sig == SIGILL ? "array index out of bounds (-fsanitize=bounds trap)" : r.sig == SIGABRT ? "abort()" : r.sig == SIGSEGV ? "SIGSEGV" : "fatal signal");
 		report(key, ord, cas, cmd, "%s: %s; stderr: %.200s", cmd, fs_ending(&r), r.err ? r.err : "");
 		if (!rep) {
@@ -449,6 +452,74 @@ notdate_case(int k)
 #endif
 	(void)line;
 }
+
+#if defined TOOL_dconv || defined TOOL_dadd || defined TOOL_dround || defined TOOL_dgrep
+/* ---- two input formats, one without a needle (digits only) and one with: the text in front of a needle match is
+ * tried and refused / accepted by the needle-less one.  Ends within the watchdog, prints at most 64 x the input. */
+static const char *const tf_digits[] = {"%Y%m%d", "%H%M%S", "%s", "%Y%j"};
+static const char *const tf_needle[] = {"%d/%m/%Y", "%Y-%m-%d", "%H:%M:%S", "%d %b %Y"};
+static const char *const tf_text[] = {"07/03/2012", "2012-03-07", "12:34:56", "07 Mar 2012"};
+static const char *const tf_front[] = {"id 99999999 seen ", "id 9999 seen ", "id 20120304 seen ", "", "seen ", "99999999", "99999999 ", "20120304 ", "id 99999999 and 9999 and 20120304 seen ", "-99999999 "};
+static const char *const tf_front_name[] = {"8 digits that are no date", "too few digits", "a valid date", "nothing", "no digits", "8 digits that are no date, adjacent", "8 digits and a blank", "a valid date and a blank", "several numbers", "a negative number"};
+static const char *const tf_back[] = {" end", "", " end 99999999", " and 08/03/2012 2012-03-08 12:34:57 08 Mar 2012"};
+#define TF_ND	4
+#define TF_NN	4
+#define TF_NF	10
+#define TF_NB	4
+static const struct {
+	const char *a[4];
+	int n;
+	const char *name;
+} tf_inv[] = {
+#if defined TOOL_dconv
+	{{"dconv", "-S"}, 2, "dconv -S"},
+	{{"dconv"}, 1, "dconv"},
+#elif defined TOOL_dadd
+	{{"dadd", "-S", "+1d"}, 3, "dadd -S"},
+	{{"dadd", "+1d"}, 2, "dadd"},
+#elif defined TOOL_dround
+	{{"dround", "-S", "+1d"}, 3, "dround -S"},
+	{{"dround", "+1d"}, 2, "dround"},
+#elif defined TOOL_dgrep
+	{{"dgrep", ">=2000-01-01"}, 2, "dgrep"},
+	{{"dgrep", "-o", ">=2000-01-01"}, 3, "dgrep -o"},
+	{{"dgrep", "-v", ">=2000-01-01"}, 3, "dgrep -v"},
+#endif
+};
+#define TF_NINV	((int)(sizeof(tf_inv) / sizeof(*tf_inv)))
+#define TF_TOTAL	(TF_NINV * TF_ND * TF_NN * 2)
+static void
+twofmt_case(int k, int only)
+{
+	int order = k % 2, ni = k / 2 % TF_NN, di = k / 2 / TF_NN % TF_ND, iv = k / 2 / TF_NN / TF_ND;
+	const char *argv[12];
+	char in[256], cas[48], class[96], fine[96];
+	int argc = 0;
+
+	for (int i = 0; i < tf_inv[iv].n; i++) {
+		argv[argc++] = tf_inv[iv].a[i];
+	}
+	argv[argc++] = "-i";
+	argv[argc++] = order ? tf_needle[ni] : tf_digits[di];
+	argv[argc++] = "-i";
+	argv[argc++] = order ? tf_digits[di] : tf_needle[ni];
+	for (int f = 0; f < TF_NF; f++) {
+		for (int b = 0; b < TF_NB; b++) {
+			if (only >= 0 && only != f * TF_NB + b) {
+				continue;
+			}
+			snprintf(in, sizeof(in), "%s%s%s\n", tf_front[f], tf_text[ni], tf_back[b]);
+			snprintf(cas, sizeof(cas), "W %d %d", k, f * TF_NB + b);
+			snprintf(class, sizeof(class), "%s", tf_inv[iv].name);
+			snprintf(fine, sizeof(fine), "in front of the match: %s", tf_front_name[f]);
+			tool_out_bound = 64 * strlen(in) + 256;
+			(void)fine;	/* which text is in front goes into the command line of the detail, not the key */
+			tool_run("two input formats (digits only + with separator), stdin line", class, "", (double)strlen(in), cas, argc, argv, in, 0);
+			tool_out_bound = 0;
+		}
+	}
+}
+#endif
 
 #if defined TOOL_dzone
 /* zone names of 240..262 bytes that resolve: Europe/../Europe/../.../Berlin */
@@ -839,6 +910,10 @@ main(int argc, char *argv[])
 			ex.thorough = 1;
 			durlist_pattern(iv, sh, si);
 #endif
+#if defined TOOL_dconv || defined TOOL_dadd || defined TOOL_dround || defined TOOL_dgrep
+		} else if (ex.cas[0] == 'W' && sscanf(ex.cas, "W %d %d", &k, &iv) == 2 && k >= 0 && k < TF_TOTAL && iv >= 0 && iv < TF_NF * TF_NB) {
+			twofmt_case(k, iv);
+#endif
 #if defined TOOL_dzone
 		} else if (sscanf(ex.cas, "Z %zu", &n) == 1 && n >= 30 && n < 380) {
 			zname_case(n);
@@ -912,6 +987,11 @@ main(int argc, char *argv[])
 		"dround: d mo y h m s and the co-class forms; dseq: d b w mo y as compound increment) as one argument, one argument per duration and (dadd) one stdin line: no report, "
 		"and the result equals the chain of runs with one duration each (dseq: the library adding them one at a time)"
 #endif
+#if defined TOOL_dconv || defined TOOL_dadd || defined TOOL_dround || defined TOOL_dgrep
+		"; two input formats, one of digits only {%%Y%%m%%d %%H%%M%%S %%s %%Y%%j} and one with a separator {%%d/%%m/%%Y %%Y-%%m-%%d %%H:%%M:%%S, %%d %%b %%Y}, both orders, stream mode with and without -S "
+		"(dgrep: plain, -o, -v), over lines where the separator match is preceded by 10 kinds of text the digits-only format tries (no date, too few digits, a date, nothing, ...) "
+		"and followed by 4 kinds: ends within 2 s and prints at most 64 x the input"
+#endif
 #if defined TOOL_dzone
 		"; zone names of 240..262 bytes that resolve to Europe/Berlin"
 #endif
@@ -961,6 +1041,14 @@ main(int argc, char *argv[])
 				++*c_states;
 				++*c_traces;
 			}
+		}
+	}
+#endif
+#if defined TOOL_dconv || defined TOOL_dadd || defined TOOL_dround || defined TOOL_dgrep
+	for (int k = 0; k < TF_TOTAL && !ex_expired(); k += 2, slice++) {
+		if (ex_mine(slice)) {
+			twofmt_case(k, -1);
+			twofmt_case(k + 1, -1);
 		}
 	}
 #endif
